@@ -23,12 +23,15 @@ Section count.
     | PSkip => (0, st)
     | PSeq a b => let '(n1, st1) := sp_count a nm e st in
                   let '(n2, st2) := sp_count b nm e st1 in (n1 + n2, st2)
-    | PIf c a b => if (match c with CInTarget => has_target nm st | CInClass => has_class nm st end)
+    | PIf c a b => if (match c with CInTarget => has_target nm st | CInClass => has_class nm st
+                                  | CNeTarget => ne_target nm st | CNeClass => ne_class nm st end)
                    then sp_count a nm e st else sp_count b nm e st
     | PYieldTarget => (b2n (bool_decide (e ∈ ix_get (by_target st) (Some nm))), upd_target (probe (Some nm)) st)
     | PYieldClass => (b2n (bool_decide (e ∈ ix_get (by_class st) nm)), upd_class (probe nm) st)
     | PScanTarget t f =>
         (scan_count (match t with TEq => λ k, bool_decide (k = nm) | TPrefix => is_prefix nm end) f e st, st)
+    | PYieldGetTarget => (b2n (bool_decide (e ∈ ix_get (by_target st) (Some nm))), st)
+    | PYieldGetClass => (b2n (bool_decide (e ∈ ix_get (by_class st) nm)), st)
     end.
   Definition search_count (sh : search_shape) (name : str) (e : nat) (st : mstate) : nat :=
     if sh_empty_returns sh && bool_decide (name = []) then 0 else
@@ -37,38 +40,46 @@ Section count.
     else (sp_count (sh_exact sh) nm e st).1.
 
   (** symbolic multiplicities: how many times each of the three parts is yielded, per presence facts *)
-  Fixpoint sp_mult (p : sprog) (bt bc : bool) : nat * nat * nat * bool * bool :=
+  Fixpoint sp_mult (net nec : bool) (p : sprog) (bt bc : bool) : nat * nat * nat * bool * bool :=
     match p with
     | PSkip => (0, 0, 0, bt, bc)
-    | PSeq a b => let '(t1, c1, p1, bt1, bc1) := sp_mult a bt bc in
-                  let '(t2, c2, p2, bt2, bc2) := sp_mult b bt1 bc1 in
+    | PSeq a b => let '(t1, c1, p1, bt1, bc1) := sp_mult net nec a bt bc in
+                  let '(t2, c2, p2, bt2, bc2) := sp_mult net nec b bt1 bc1 in
                   (t1 + t2, c1 + c2, p1 + p2, bt2, bc2)
-    | PIf CInTarget a b => if bt then sp_mult a bt bc else sp_mult b bt bc
-    | PIf CInClass a b => if bc then sp_mult a bt bc else sp_mult b bt bc
+    | PIf CInTarget a b => if bt then sp_mult net nec a bt bc else sp_mult net nec b bt bc
+    | PIf CInClass a b => if bc then sp_mult net nec a bt bc else sp_mult net nec b bt bc
+    | PIf CNeTarget a b => if net then sp_mult net nec a bt bc else sp_mult net nec b bt bc
+    | PIf CNeClass a b => if nec then sp_mult net nec a bt bc else sp_mult net nec b bt bc
     | PYieldTarget => (1, 0, 0, true, bc)
     | PYieldClass => (0, 1, 0, bt, true)
     | PScanTarget TEq _ => (1, 0, 0, bt, bc)
     | PScanTarget TPrefix _ => (0, 0, 1, bt, bc)
+    | PYieldGetTarget => (1, 0, 0, bt, bc)
+    | PYieldGetClass => (0, 1, 0, bt, bc)
     end.
   (** the new obligations: no part is yielded twice *)
   Definition exact_once (p : sprog) : bool :=
-    forallb (λ f : bool * bool, let '(t, c, pp, _, _) := sp_mult p f.1 f.2 in
-                                Nat.leb t 1 && Nat.leb c 1 && Nat.eqb pp 0) flag_cases.
+    forallb (λ f : bool * bool * bool * bool,
+               let '(bt, bc, net, nec) := f in
+               let '(t, c, pp, _, _) := sp_mult net nec p bt bc in
+               Nat.leb t 1 && Nat.leb c 1 && Nat.eqb pp 0) flag_cases.
   Definition star_once (p : sprog) : bool :=
-    forallb (λ f : bool * bool, let '(t, c, pp, _, _) := sp_mult p f.1 f.2 in
-                                Nat.eqb t 0 && Nat.eqb c 0 && Nat.leb pp 1) flag_cases.
+    forallb (λ f : bool * bool * bool * bool,
+               let '(bt, bc, net, nec) := f in
+               let '(t, c, pp, _, _) := sp_mult net nec p bt bc in
+               Nat.eqb t 0 && Nat.eqb c 0 && Nat.leb pp 1) flag_cases.
   Definition search_once_ok (sh : search_shape) : bool := star_once (sh_star sh) && exact_once (sh_exact sh).
 
   Lemma ltb_add a b : Nat.ltb 0 (a + b) = Nat.ltb 0 a || Nat.ltb 0 b.
   Proof. by destruct a, b. Qed.
-  Lemma sp_mult_sym p : ∀ bt bc, let '(t, c, pp, bt', bc') := sp_mult p bt bc in
-    sp_sym p bt bc = (Nat.ltb 0 t, Nat.ltb 0 c, Nat.ltb 0 pp, bt', bc').
+  Lemma sp_mult_sym net nec p : ∀ bt bc, let '(t, c, pp, bt', bc') := sp_mult net nec p bt bc in
+    sp_sym net nec p bt bc = (Nat.ltb 0 t, Nat.ltb 0 c, Nat.ltb 0 pp, bt', bc').
   Proof.
-    induction p as [|a IHa b IHb|cd a IHa b IHb| | |tst f]; intros bt bc; simpl; try done.
-    - specialize (IHa bt bc). destruct (sp_mult a bt bc) as [[[[t1 c1] p1] bt1] bc1]. rewrite IHa.
-      specialize (IHb bt1 bc1). destruct (sp_mult b bt1 bc1) as [[[[t2 c2] p2] bt2] bc2]. rewrite IHb.
+    induction p as [|a IHa b IHb|cd a IHa b IHb| | |tst f| |]; intros bt bc; simpl; try done.
+    - specialize (IHa bt bc). destruct (sp_mult net nec a bt bc) as [[[[t1 c1] p1] bt1] bc1]. rewrite IHa.
+      specialize (IHb bt1 bc1). destruct (sp_mult net nec b bt1 bc1) as [[[[t2 c2] p2] bt2] bc2]. rewrite IHb.
       by rewrite !ltb_add.
-    - destruct cd; [destruct bt|destruct bc]; [apply IHa|apply IHb|apply IHa|apply IHb].
+    - destruct cd; [destruct bt|destruct bc|destruct net|destruct nec]; (apply IHa || apply IHb).
     - by destruct tst.
   Qed.
 
@@ -143,18 +154,18 @@ Section count.
   Proof. intros HI. unfold bP. apply bool_decide_ext. by rewrite !(named_spec' fold fold_idem). Qed.
 
   Lemma sp_count_sem p : ∀ nm e st t c pp bt' bc' n st', Inv fold st →
-    sp_mult p (has_target nm st) (has_class nm st) = (t, c, pp, bt', bc') →
+    sp_mult (ne_target nm st) (ne_class nm st) p (has_target nm st) (has_class nm st) = (t, c, pp, bt', bc') →
     sp_count p nm e st = (n, st') →
     ix_equiv st st' ∧ has_target nm st' = bt' ∧ has_class nm st' = bc' ∧
     n = t * b2n (bT nm e st) + c * b2n (bC nm e st) + pp * b2n (bP nm e st).
   Proof.
-    induction p as [|a IHa b IHb|cd a IHa b IHb| | |tst f]; intros nm e st t c pp bt' bc' n st' HI Hsym Hrun; simpl in *.
+    induction p as [|a IHa b IHb|cd a IHa b IHb| | |tst f| |]; intros nm e st t c pp bt' bc' n st' HI Hsym Hrun; simpl in *.
     - simplify_eq. split; [apply ix_equiv_refl|]. done.
-    - destruct (sp_mult a _ _) as [[[[t1 c1] p1] bt1] bc1] eqn:Ea.
+    - destruct (sp_mult _ _ a _ _) as [[[[t1 c1] p1] bt1] bc1] eqn:Ea.
       destruct (sp_count a nm e st) as [n1 st1] eqn:Ra.
       destruct (IHa _ _ _ _ _ _ _ _ _ _ HI Ea Ra) as (Heq1 & Hbt1 & Hbc1 & Hn1).
-      rewrite <- Hbt1, <- Hbc1 in Hsym.
-      destruct (sp_mult b _ _) as [[[[t2 c2] p2] bt2] bc2] eqn:Eb.
+      rewrite <- Hbt1, <- Hbc1, <- (ne_target_equiv nm st st1 Heq1), <- (ne_class_equiv nm st st1 Heq1) in Hsym.
+      destruct (sp_mult _ _ b _ _) as [[[[t2 c2] p2] bt2] bc2] eqn:Eb.
       destruct (sp_count b nm e st1) as [n2 st2] eqn:Rb.
       assert (HI1 : Inv fold st1) by (by eapply ix_equiv_inv).
       destruct (IHb _ _ _ _ _ _ _ _ _ _ HI1 Eb Rb) as (Heq2 & Hbt2 & Hbc2 & Hn2).
@@ -163,6 +174,8 @@ Section count.
     - destruct cd.
       + destruct (has_target nm st) eqn:E; [eapply IHa|eapply IHb]; eauto; by rewrite E.
       + destruct (has_class nm st) eqn:E; [eapply IHa|eapply IHb]; eauto; by rewrite E.
+      + destruct (ne_target nm st) eqn:E; [eapply IHa|eapply IHb]; eauto; by rewrite E.
+      + destruct (ne_class nm st) eqn:E; [eapply IHa|eapply IHb]; eauto; by rewrite E.
     - simplify_eq. split.
       { repeat split; try done. intros k. simpl. apply ix_get_probe. }
       split; [apply has_target_probe|]. split; [done|]. unfold bT. lia.
@@ -173,22 +186,24 @@ Section count.
         rewrite scan_count_named by done.
       + rewrite named_eq_bT by done. lia.
       + rewrite named_prefix_fold by done. lia.
+    - simplify_eq. split; [apply ix_equiv_refl|]. split; [done|]. split; [done|]. unfold bT. lia.
+    - simplify_eq. split; [apply ix_equiv_refl|]. split; [done|]. split; [done|]. unfold bC. lia.
   Qed.
 
-  (** an absent key means an empty set *)
-  Lemma absent_bT nm e st : has_target nm st = false → bT nm e st = false.
+  (** a set without members holds nothing *)
+  Lemma absent_bT nm e st : ne_target nm st = false → bT nm e st = false.
   Proof.
-    unfold has_target, bT, ix_get. intros H%bool_decide_eq_false. apply bool_decide_eq_false.
-    destruct (by_target st !! Some nm); [by destruct H|set_solver].
+    unfold ne_target, bT. intros H%bool_decide_eq_false. apply bool_decide_eq_false.
+    intros He. apply H. intros E. rewrite E in He. set_solver.
   Qed.
-  Lemma absent_bC nm e st : has_class nm st = false → bC nm e st = false.
+  Lemma absent_bC nm e st : ne_class nm st = false → bC nm e st = false.
   Proof.
-    unfold has_class, bC, ix_get. intros H%bool_decide_eq_false. apply bool_decide_eq_false.
-    destruct (by_class st !! nm); [by destruct H|set_solver].
+    unfold ne_class, bC. intros H%bool_decide_eq_false. apply bool_decide_eq_false.
+    intros He. apply H. intros E. rewrite E in He. set_solver.
   Qed.
 
-  Lemma flag_case_In (bt bc : bool) : List.In (bt, bc) flag_cases.
-  Proof. destruct bt, bc; simpl; tauto. Qed.
+  Lemma flag_case_In nm st : List.In (has_target nm st, has_class nm st, ne_target nm st, ne_class nm st) flag_cases.
+  Proof. apply elem_of_list_In, flag_case_st. Qed.
 
   (** VMF.search as written: how often an entity is yielded *)
   Theorem search_count_spec sh name e st : search_shape_ok sh = true → search_once_ok sh = true → Inv fold st →
@@ -201,31 +216,31 @@ Section count.
     intros ((((He & Hf) & Hs) & Hstar) & Hex) [Hso Heo] HI. unfold search_count. rewrite He, Hf, Hs. simpl.
     case_bool_decide as Hn; [done|]. destruct (ends_star (fold name)) eqn:Hst.
     - set (nm := removelast (fold name)).
-      destruct (sp_mult (sh_star sh) (has_target nm st) (has_class nm st)) as [[[[t c] pp] bt'] bc'] eqn:Es.
+      destruct (sp_mult (ne_target nm st) (ne_class nm st) (sh_star sh) (has_target nm st) (has_class nm st)) as [[[[t c] pp] bt'] bc'] eqn:Es.
       destruct (sp_count (sh_star sh) nm e st) as [n st'] eqn:Er.
       destruct (sp_count_sem _ _ _ _ _ _ _ _ _ _ _ HI Es Er) as (_ & _ & _ & ->). simpl.
-      pose proof (sp_mult_sym (sh_star sh) (has_target nm st) (has_class nm st)) as Hsym. rewrite Es in Hsym.
-      unfold star_ok in Hstar. rewrite forallb_forall in Hstar. specialize (Hstar _ (flag_case_In (has_target nm st) (has_class nm st))).
+      pose proof (sp_mult_sym (ne_target nm st) (ne_class nm st) (sh_star sh) (has_target nm st) (has_class nm st)) as Hsym. rewrite Es in Hsym.
+      unfold star_ok in Hstar. rewrite forallb_forall in Hstar. specialize (Hstar _ (flag_case_In nm st)).
       simpl in Hstar. rewrite Hsym in Hstar. apply andb_true_iff in Hstar as [Hp _]. apply Nat.ltb_lt in Hp.
-      unfold star_once in Hso. rewrite forallb_forall in Hso. specialize (Hso _ (flag_case_In (has_target nm st) (has_class nm st))).
+      unfold star_once in Hso. rewrite forallb_forall in Hso. specialize (Hso _ (flag_case_In nm st)).
       simpl in Hso. rewrite Es in Hso. apply andb_true_iff in Hso as [Hso Hp1]. apply andb_true_iff in Hso as [Ht0 Hc0].
       apply Nat.eqb_eq in Ht0, Hc0. apply Nat.leb_le in Hp1. subst. assert (pp = 1) as -> by lia. lia.
     - set (nm := fold name).
-      destruct (sp_mult (sh_exact sh) (has_target nm st) (has_class nm st)) as [[[[t c] pp] bt'] bc'] eqn:Es.
+      destruct (sp_mult (ne_target nm st) (ne_class nm st) (sh_exact sh) (has_target nm st) (has_class nm st)) as [[[[t c] pp] bt'] bc'] eqn:Es.
       destruct (sp_count (sh_exact sh) nm e st) as [n st'] eqn:Er.
       destruct (sp_count_sem _ _ _ _ _ _ _ _ _ _ _ HI Es Er) as (_ & _ & _ & ->). simpl.
-      pose proof (sp_mult_sym (sh_exact sh) (has_target nm st) (has_class nm st)) as Hsym. rewrite Es in Hsym.
-      unfold exact_ok in Hex. rewrite forallb_forall in Hex. specialize (Hex _ (flag_case_In (has_target nm st) (has_class nm st))).
+      pose proof (sp_mult_sym (ne_target nm st) (ne_class nm st) (sh_exact sh) (has_target nm st) (has_class nm st)) as Hsym. rewrite Es in Hsym.
+      unfold exact_ok in Hex. rewrite forallb_forall in Hex. specialize (Hex _ (flag_case_In nm st)).
       simpl in Hex. rewrite Hsym in Hex. apply andb_true_iff in Hex as [Hex Hc]. apply andb_true_iff in Hex as [Hpp Ht].
-      unfold exact_once in Heo. rewrite forallb_forall in Heo. specialize (Heo _ (flag_case_In (has_target nm st) (has_class nm st))).
+      unfold exact_once in Heo. rewrite forallb_forall in Heo. specialize (Heo _ (flag_case_In nm st)).
       simpl in Heo. rewrite Es in Heo. apply andb_true_iff in Heo as [Heo Hp0]. apply andb_true_iff in Heo as [Ht1 Hc1].
       apply Nat.eqb_eq in Hp0. apply Nat.leb_le in Ht1, Hc1. subst pp.
       assert (t * b2n (bT nm e st) = b2n (bT nm e st)) as ->.
-      { destruct (has_target nm st) eqn:E.
+      { destruct (ne_target nm st) eqn:E.
         - simpl in Ht. apply Nat.ltb_lt in Ht. assert (t = 1) as -> by lia. lia.
         - rewrite (absent_bT _ _ _ E). simpl. lia. }
       assert (c * b2n (bC nm e st) = b2n (bC nm e st)) as ->.
-      { destruct (has_class nm st) eqn:E.
+      { destruct (ne_class nm st) eqn:E.
         - simpl in Hc. apply Nat.ltb_lt in Hc. assert (c = 1) as -> by lia. lia.
         - rewrite (absent_bC _ _ _ E). simpl. lia. }
       lia.
